@@ -30,6 +30,33 @@ NEEDS = {
  "C18-B": ("C18", "SARGON Points.Reset cached by root hash", "two consecutive searches on one engine from equal-hash roots with different history, depth >= 2"),
  "C11-A": ("C11", "table write guarded by alpha <= beta instead of alpha < beta: a score landing exactly on beta stored as exact", "a tie with beta at a node whose true value is higher, reached again under another window (sequences of searches on one table)"),
  "C11-B": ("C11", "the '!IsCancelled' guard of the leaf table write dropped", "quiescence leaf + a halt during a leaf's quiescence search + a later search sharing the table"),
+ "w3-C05-A": ("C05", "half-move clock update rewritten as a switch that misses the EnPassant move type", "an en-passant capture followed by 99 quiet half-moves without repetition (draw reported one ply early)"),
+ "w3-C05-B": ("C05", "castling rights only updated when a king or rook moves (rook captured at home keeps the right)", "rook captured on its home square by another piece, then the position repeated around a king excursion (third occurrence missed)"),
+ "w3-C08-A": ("C08", "PopMove flips the turn before clearing the has-castled flag: wrong colour cleared", "a castling move played and taken back"),
+ "w3-C08-B": ("C08", "Fork copies only the repetition counts of the no-progress window, off by one", "fork right after a capture / pawn move, then that position twice more on the fork"),
+ "w3-C02-A": ("C02", "castling handed to a helper that never resets the en-passant target", "a double pawn step answered immediately by castling"),
+ "w3-C02-B": ("C02", "CastlingRightsLost: '=' instead of '|=' on captures", "the first move of a king or rook off its home square is a capture"),
+ "w3-C03-A": ("C03", "hasLegalMove only set for explored moves", "selective exploration that selects no move at a node where the side to move is not in check"),
+ "w3-C03-B": ("C03", "draw test skipped at depth 0", "static leaf + a node at the horizon that is drawn by history / clock / material"),
+ "w3-C07-A": ("C07", "capture-promotion hashed with the pawn key on the promotion square", "a capture-promotion is played"),
+ "w3-C07-B": ("C07", "castling key loop leaves both 'no rights' and 'KQkq' at zero", "two positions identical except KQkq vs no castling rights (clause 2)"),
+ "w3-C04-A": ("C04", "Halt closes quit before waiting for depth 1", "a halt (stop, movetime, exhausted clock) reaching the handle before depth 1 completes"),
+ "w3-C04-B": ("C04", "searchCompleted: CompareAndSwap replaced by Load ... Store", "a search ending by itself at the moment stop is processed, or a slow reader with a full output buffer (two bestmoves for one go)"),
+ "w3-C10-A": ("C10", "continuation test loses its token boundary", "FEN whose full-move number grows by a digit, no ucinewgame in between"),
+ "w3-C10-B": ("C10", "Engine.Reset skips the reset when the FEN equals the current one", "position with moves, then position fen <the very FEN the engine stands on> (history kept)"),
+ "w3-C11-A": ("C11", "table cut-off accepts deeper entries (depth <= d)", "an earlier deeper search of the game filled the table; new root two plies on searched from depth 1"),
+ "w3-C11-B": ("C11", "table compares only the low 32 bits of the hash", "two positions whose hashes agree in the low 32 bits in searches sharing a table"),
+ "w3-C12-A": ("C12", "root draw result restored only on the normal return path", "a root whose result is already Draw + a halt at any cancellation point"),
+ "w3-C12-B": ("C12", "halted decision from a flag quiescence never sets", "quiescence leaf + halt inside the quiescence of the last leaf visited (result reported instead of ErrHalted)"),
+ "w3-C14-A": ("C14", "PopMove flips the turn last: full-move number decremented for the wrong colour", "Move then TakeBack (odd net number of take-backs)"),
+ "w3-C14-B": ("C14", "destination square considered for castling rights only for MoveType Capture", "capture-promotion of an unmoved rook on its home square"),
+ "w3-C15-A": ("C15", "h.pv stored after the send; Halt copies it before waiting for the goroutine", "halt requested between the channel send of depth d and the store (Halt returns d-1)"),
+ "w3-C15-B": ("C15", "publish step is a single non-blocking send (new iteration dropped when the previous is unread)", "a listener that is behind when the last iteration is published"),
+ "w3-C16-A": ("C16", "ensureInactive only on the new-position path, not for continuations", "a running non-infinite go, no stop, then a position that continues the previous one"),
+ "w3-C17-A": ("C17", "empty-slot fast path without CAS, counted unconditionally", "two first writers on the same empty slot, one delayed between load and store"),
+ "w3-C17-B": ("C17", "evicted nodes recycled through a sync.Pool", "a reader holding a node pointer while it is evicted and refilled"),
+ "w3-C18-A": ("C18", "Engine.Reset keeps the table when the size is unchanged", "Hash on (power-of-two MB), Reset, search, Reset, search"),
+ "w3-C18-B": ("C18", "eval.Random draws from the process-wide math/rand source", "noise on + another noisy engine created or searching in between"),
 }
 def main():
     rows=[]
